@@ -9,7 +9,10 @@ Sections 1-3: single dense layers and the abstract chain rule; section 4: the ex
 backward pass of `ConcatenatedModel` (proved by induction over the chain in
 `Lemmas/ChainDeriv.lean`); section 5: the further model types (proofs in
 `Lemmas/ModelsIndex.lean`, `Lemmas/ModelsPool.lean`, `Lemmas/ModelsRBF.lean`,
-`Lemmas/ModelsConv.lean`).
+`Lemmas/ModelsConv.lean`); section 6 (deep3): nested `ConcatenatedModel`s, the separate routines of
+`ConcatenatedModel`, the `im2mat`/`gemm` implementation of `Conv2DModel::eval`, max pooling at ties, spline weights,
+`OneVersusOneClassifier`, `KernelClassifier`, `CARTree`, clustering models (`Model/Models3.lean`,
+`Lemmas/ModelsNet.lean`).
 -/
 import SharkVerif.Lemmas.Models
 import SharkVerif.Lemmas.ModelsDeriv
@@ -19,6 +22,7 @@ import SharkVerif.Lemmas.ModelsPool
 import SharkVerif.Lemmas.ModelsRBF
 import SharkVerif.Lemmas.ModelsConv
 import SharkVerif.Lemmas.ModelsCMAC
+import SharkVerif.Lemmas.ModelsNet
 namespace SharkVerif.C04
 open SharkVerif.Models Scalar
 
@@ -847,6 +851,221 @@ theorem cmac_access_determines_tile {α : Type} [Scalar α] (toNat : α → Nat)
         = toNat (((x2 dim - m.lower) - m.offset t2) / m.tileWidth) :=
   cmac_access_injective toNat m t1 t2 x1 x2 hdig1 hdig2 ht1 ht2 o1 o2 h
 
+/-! ## 6. nested concatenations, separate routines, `im2mat`, ties, further classes (`Model/Models3.lean`) -/
+
+/-! ### nested `ConcatenatedModel`s with frozen parts -/
+/-- `parameterVector()` of a nested model (any nesting depth, any mixture of optimised and frozen sub-models and
+layers) has the reported length -/
+theorem nested_params_length (n : Net Rat) : n.params.length = n.numberOfParameters := by
+  rw [Net.params_eq, Net.numberOfParameters_eq]; exact chain_params_length _
+
+/-- **parameter round trip for nested models**: setting a vector of the reported length with the recursive
+slicing of `ConcatenatedModel::setParameterVector` and reading it back is the identity -/
+theorem nested_params_setParams (n : Net Rat) (p : List Rat) (hp : p.length = n.numberOfParameters) :
+    (n.setParams p).params = p := by
+  rw [Net.params_eq, Net.setParams_flatten]
+  exact chain_params_setParams _ p (by rw [hp, Net.numberOfParameters_eq])
+
+/-- a frozen sub-model contributes no parameters, whatever is optimised inside it -/
+theorem nested_frozen_child (ch rest : Net Rat) :
+    (Net.cons ch false rest).numberOfParameters = rest.numberOfParameters ∧
+    (Net.cons ch false rest).params = rest.params := by
+  simp [Net.numberOfParameters, Net.params]
+
+/-- a nested model evaluates like its flat chain, so batch = single carries over -/
+theorem nested_batch_eq_single (tanh exp : Rat → Rat) (n : Net Rat) (X : Nat → Nat → Rat) (i k : Nat) :
+    n.evalB tanh exp X i k = n.evalB tanh exp (fun _ => X i) 0 k := by
+  rw [Net.evalB_eq tanh exp n true, Net.evalB_eq tanh exp n true]
+  exact chain_batch_eq_single tanh exp _ X i k
+
+/-- **derivatives of nested models**: the recursive backward pass of the C++ (an optimised sub-model delivers its
+whole gradient through its own `weightedDerivatives`, a frozen one only its input derivative) returns exactly the
+gradient vector and the input derivative of the flat chain — for which `chain_input_derivative_correct`,
+`chain_weight_derivative_correct` and `chain_offset_derivative_correct` are proved -/
+theorem nested_backward_eq_flat (B : ℕ) (n : Net ℝ) (X C : ℕ → ℕ → ℝ) :
+    n.backward Real.tanh Real.exp B X C = Chain.backward Real.tanh Real.exp B (n.flatten true) X C := by
+  rw [Net.backward_eq]; rfl
+
+theorem nested_input_derivative_correct (n : Net ℝ) (B nIn : ℕ) (X C : ℕ → ℕ → ℝ) (i0 j0 : ℕ)
+    (hi0 : i0 < B) (hj0 : j0 < nIn) (hwf : Chain.WF (n.flatten true) nIn) (hnk : Chain.NoKink B (n.flatten true) X) :
+    HasDerivAt (fun t => (n.flatten true).objective B nIn (fun i j => if i = i0 ∧ j = j0 then t else X i j) C)
+      ((n.backward Real.tanh Real.exp B X C).2 i0 j0) (X i0 j0) := by
+  rw [nested_backward_eq_flat]
+  exact chain_input_derivative_correct _ B nIn X C i0 j0 hi0 hj0 hwf hnk
+
+/-- a frozen sub-model yields the empty gradient and the same input derivative -/
+theorem nested_frozen_backward (B : ℕ) (n : Net ℝ) (X C : ℕ → ℕ → ℝ) :
+    Chain.backward Real.tanh Real.exp B (n.flatten false) X C = ([], (n.backward Real.tanh Real.exp B X C).2) := by
+  rw [Net.backward_eq]; rfl
+
+/-! ### the separate routines of `ConcatenatedModel` agree with the combined one -/
+/-- evaluation is independent of whether a `State` is recorded: the `State`-less fold and the recording loop
+return the same matrix, for every chain -/
+theorem chain_eval_state_independent {α : Type} [Scalar α] (tanh exp : α → α) (c : Chain α) (X : Nat → Nat → α) :
+    Chain.evalFold tanh exp c X = Chain.evalB tanh exp c X := Chain.evalFold_eq tanh exp c X
+
+/-- **combined = separate**: `weightedDerivatives` returns the pair of `weightedParameterDerivative` (which skips
+the input derivative of the first layer) and `weightedInputDerivative`, for every chain, batch and coefficients -/
+theorem chain_combined_eq_separate {α : Type} [Scalar α] (tanh exp : α → α) (B : Nat) (c : Chain α) (X C : Nat → Nat → α) :
+    Chain.backward tanh exp B c X C = (Chain.gradOnly tanh exp B c X C, Chain.inputOnly tanh exp c X C) := by
+  rw [Chain.gradOnly_eq, Chain.inputOnly_eq tanh exp B]
+
+/-! ### `Conv2DModel::eval`: `im2mat(_pad)` + `gemm` refine the defining sum -/
+/-- the patch-matrix entry written by the loop nest of `im2mat_pad` (its three branches: filter row in the vertical
+padding, column in the horizontal padding, image entry) is what the defining sum reads, for every shape, both
+paddings, filters larger than the image included -/
+theorem conv2d_im2mat_entry {α : Type} [Scalar α] (m : Conv α) (x : Nat → α) (row col : Nat) :
+    m.im2matEntry x row col = m.inputAt x row col := Conv.im2matEntry_eq m x row col
+
+/-- **the implementation of `Conv2DModel::eval` (patch matrix × transposed filter matrix, offsets added on the
+reshaped output, activation) equals the specification `Conv.evalRow`** on which the derivative theorems
+`conv2d_input_derivative_correct`, `conv2d_filter_gradient_correct`, `conv2d_offset_gradient_correct` are stated -/
+theorem conv2d_impl_eq_spec {α : Type} [Scalar α] (tanh : α → α) (m : Conv α) (x : Nat → α) (o : Nat) :
+    m.evalImpl tanh x o = m.evalRow tanh x o := Conv.evalImpl_eq tanh m x o
+
+/-- with zero padding the output image has the size of the input image, also for filters larger than the image -/
+theorem conv2d_zeropad_output_shape (m : Conv Rat) (hv : m.valid = false) (hfh : 0 < m.fh) (hfw : 0 < m.fw) :
+    m.outH = m.h ∧ m.outW = m.w := by
+  simp only [Conv.outH, Conv.outW, Conv.padH, Conv.padW, hv]
+  constructor <;> simp <;> omega
+
+/-! ### max pooling at ties -/
+/-- **what `maxPoolingDerivative` does at ties**: the whole coefficient goes to the *first* maximal pixel of the
+patch in scan order (`pool_argmaxPix_first`); the function is not differentiable there, but the value is a
+subgradient of the (convex) coefficient-weighted patch maximum for a coefficient `w ≥ 0` (a supergradient for
+`w ≤ 0`): for every other image `y`, `w·max_patch(y) ≥ w·max_patch(x) + w·(y[a] − x[a])` with `a` the selected pixel -/
+theorem pooling_tie_subgradient (s : Pool) (x y : Nat → Rat) (p c : Nat) (w : Rat) (hc : c < s.d)
+    (hph : 0 < s.ph) (hpw : 0 < s.pw) (hw : 0 ≤ w) :
+    w * s.evalRow x (p * s.d + c) + w * (y (s.argmaxPix x p c * s.d + c) - x (s.argmaxPix x p c * s.d + c))
+      ≤ w * s.evalRow y (p * s.d + c) := by
+  obtain ⟨hmem, heq⟩ := pool_argmaxPix_spec s x p c hc hph hpw
+  have hy := pool_evalRow_ge s y p c _ hc hmem
+  rw [← heq]
+  nlinarith
+
+/-- the selected pixel is the first maximum: every pixel scanned before it is strictly smaller -/
+theorem pooling_tie_first (s : Pool) (x : Nat → Rat) (p c : Nat) (hph : 0 < s.ph) (hpw : 0 < s.pw) :
+    ∃ l1 l2, s.patch p = l1 ++ s.argmaxPix x p c :: l2 ∧
+      (∀ q ∈ l1, x (q * s.d + c) < x (s.argmaxPix x p c * s.d + c)) ∧
+      (∀ q ∈ l2, x (q * s.d + c) ≤ x (s.argmaxPix x p c * s.d + c)) :=
+  pool_argmaxPix_first s x p c hph hpw
+
+/-! ### `ResizeLayer`: the 16 spline weights of every output pixel sum to 1 -/
+theorem resize_bspline_sum (t : Rat) : (Resize.bspline t).sum = 6 := by
+  simp [Resize.bspline, Scalar.ofNat]; ring
+
+/-- partition of unity of the cubic B-spline taps, for every shape, every output pixel and whatever `floor` and the
+`size_t` cast return: a constant image is reproduced exactly -/
+theorem resize_weights_sum_one (floor : Rat → Rat) (toNat : Rat → Nat) (s : Resize) (p : Nat) :
+    ((Resize.taps floor toNat s p).map Prod.snd).sum = 1 := by
+  have h4 : List.range 4 = [0, 1, 2, 3] := rfl
+  simp only [Resize.taps, h4, List.flatMap_cons, List.flatMap_nil, List.map_cons, List.map_nil, List.append_nil,
+    List.cons_append, List.nil_append, Resize.bspline, List.getD_cons_zero, List.getD_cons_succ, List.sum_cons,
+    List.sum_nil, Scalar.ofNat]
+  ring
+
+/-! ### `OneVersusOneClassifier`, `KernelClassifier`, `CARTree`, clustering models -/
+/-- the one-versus-one decision is a class, has the most votes, and is the first class with that many votes -/
+theorem ovo_decision_spec (classes : Nat) (bin : Nat → Nat) (hc : 0 < classes) :
+    ovoDecide classes bin < classes ∧
+    (∀ k, k < classes → ovoVotes classes bin k ≤ ovoVotes classes bin (ovoDecide classes bin)) ∧
+    (∀ k, k < ovoDecide classes bin → ovoVotes classes bin k < ovoVotes classes bin (ovoDecide classes bin)) := by
+  obtain ⟨h1, h2, h3⟩ := argmaxNat_inv classes (ovoVotes classes bin)
+  exact ⟨by unfold ovoDecide; omega, h2, h3⟩
+
+/-- every binary classifier casts exactly one vote -/
+theorem ovo_ballot_count (classes : Nat) (bin : Nat → Nat) :
+    (ovoBallots classes bin).length = ((List.range classes).map id).sum := by
+  simp [ovoBallots, List.length_flatMap]
+
+/-- one-versus-one batch evaluation is row-wise: row `i`'s label depends on the binary answers for row `i` only -/
+theorem ovo_batch_eq_single (classes : Nat) (binB : Nat → Nat → Nat) (i : Nat) :
+    ovoDecide classes (fun q => binB q i) = ovoDecide classes (fun q => (fun _ => binB q i) 0) := rfl
+
+/-- `KernelClassifier` = decision rule ∘ `KernelExpansion`: the label of batch row `i` is the decision on the
+single evaluation of row `i`, for any kernel function -/
+theorem kernelClassifier_batch_eq_single (k : (Nat → Rat) → (Nat → Rat) → Rat) (m : KExp Rat) (X : Nat → Nat → Rat) (i : Nat) :
+    classifyRow m.nOut false (fun _ => 0) (m.evalB k X i) = classifyRow m.nOut false (fun _ => 0) (m.eval k (X i)) := rfl
+
+/-- `CARTree`: the batch evaluation is the per-row tree walk -/
+theorem cart_batch_eq_single (t : Models.Tree Rat) (X : Nat → Nat → Rat) (i : Nat) : t.evalB X i = t.eval (X i) := rfl
+
+/-- soft / hard clustering models: memberships of batch row `i` are those of the single input; the hard label is
+the first cluster of maximal membership -/
+theorem clustering_hard_is_first_max (sqrt : Rat → Rat) (tiny huge : Rat) (nIn nC : Nat) (cen : Nat → Nat → Rat)
+    (x : Nat → Rat) (hn : 0 < nC) :
+    hardMembership sqrt tiny huge nIn nC cen x < nC ∧
+    (∀ k, k < nC → softMembership sqrt tiny huge nIn nC cen x k
+        ≤ softMembership sqrt tiny huge nIn nC cen x (hardMembership sqrt tiny huge nIn nC cen x)) ∧
+    (∀ k, k < hardMembership sqrt tiny huge nIn nC cen x → softMembership sqrt tiny huge nIn nC cen x k
+        < softMembership sqrt tiny huge nIn nC cen x (hardMembership sqrt tiny huge nIn nC cen x)) :=
+  ⟨argmax_lt nC _ hn, fun k hk => argmax_max nC _ k hk, fun k hk => argmax_first nC _ k hk⟩
+
+/-- the soft memberships sum to 1 whenever the kernel values do not sum to 0 -/
+theorem clustering_memberships_sum_one (sqrt : Rat → Rat) (tiny huge : Rat) (nIn nC : Nat) (cen : Nat → Nat → Rat)
+    (x : Nat → Rat)
+    (hs : sumR nC (fun q => membershipKernel tiny huge (centroidDist sqrt nIn x (cen q))) ≠ 0) :
+    sumR nC (softMembership sqrt tiny huge nIn nC cen x) = 1 := by
+  have hdiv : ∀ (l : List Nat) (m : Nat → Rat) (S : Rat), (l.map fun k => m k / S).sum = (l.map m).sum / S := by
+    intro l m S
+    induction l with
+    | nil => simp
+    | cons a l ih => simp only [List.map_cons, List.sum_cons, ih, add_div]
+  unfold softMembership
+  rw [sumR_eq_sum] at hs
+  rw [sumR_eq_sum]
+  simp only [sumR_eq_sum]
+  rw [hdiv]
+  exact div_self hs
+
+/-- **the `CARTree` walk ends in a leaf**: for every tree produced by `createRoot`, `transformInternalNode` (on an
+existing node) and `transformLeafNode`, in any order and any number, `findLeaf` stops within `numberOfNodes()` steps
+at a node inside the array whose `leftId` is 0 — for every input -/
+theorem cart_walk_reaches_leaf (t : Models.Tree Rat) (h : Tree.Built t) (x : Nat → Rat) :
+    (t.node (t.findLeaf x t.nodes.length 0)).left = 0 ∧ t.findLeaf x t.nodes.length 0 < t.nodes.length :=
+  Tree.findLeaf_reaches_leaf t h.wf.1 x _ 0 h.wf.2 (by omega)
+
+/-- every one of the 16 spline taps of every output pixel is a pixel of the input image (both axes are clamped to
+`[0, len−1]` before the cast), for any `floor` and any cast that maps `[0, n]` into `{0..n}` -/
+theorem resize_taps_in_range (floor : Rat → Rat) (toNat : Rat → Nat)
+    (htn : ∀ (q : Rat) (n : Nat), 0 ≤ q → q ≤ n → toNat q ≤ n) (s : Resize) (hh : 0 < s.h) (hw : 0 < s.w) (p : Nat) :
+    ∀ t ∈ Resize.taps floor toNat s p, t.1 < s.h * s.w :=
+  Resize.taps_in_range floor toNat htn s hh hw p
+
+/-- `CMACMap`: the parameter vector is stored as it is -/
+theorem cmac_params_roundtrip (m : CMAC Rat) (p : List Rat) :
+    (m.setParams p).params = p ∧ (m.setParams p).numberOfParameters = m.numberOfParameters := ⟨rfl, rfl⟩
+
+/-- `OneVersusOneClassifier::parameterVector / setParameterVector / numberOfParameters` run through the binary
+classifiers exactly like a `ConcatenatedModel` through optimised layers: round trip and count for any number of
+binary classifiers of any shapes -/
+theorem ovo_params_roundtrip (bins : List (Dense Rat)) (p : List Rat)
+    (hp : p.length = Chain.numberOfParameters (bins.map fun m => (Layer.dense m, true))) :
+    (Chain.setParams (bins.map fun m => (Layer.dense m, true)) p).params = p ∧
+    (Chain.params (bins.map fun m => (Layer.dense m, true))).length
+      = Chain.numberOfParameters (bins.map fun m => (Layer.dense m, true)) :=
+  ⟨chain_params_setParams _ p hp, chain_params_length _⟩
+
+/-- `Centroids`: the centroid matrix is packed row by row like a weight matrix without offset -/
+theorem centroids_params_roundtrip (nIn nC : Nat) (p : List Rat) (hp : p.length = nC * nIn) :
+    let m : Dense Rat := { nIn := nIn, nOut := nC, W := fun _ _ => 0, hasB := false, b := fun _ => 0, act := .linear }
+    (m.setParams p).params = p ∧ (m.setParams p).params.length = nC * nIn := by
+  intro m
+  have h := params_setParams m p (by simp [Dense.numberOfParameters, m, hp])
+  exact ⟨h, by rw [h, hp]⟩
+
+/-- `DropoutLayer`, for the mask its `eval` drew and stored in the `State`: row `i` of the output depends on row
+`i` of input and mask only, and `weightedInputDerivative` (= `coefficients * mask`) is the derivative of the
+coefficient-weighted output sum.  (The mask itself is random; the harness checks that the three evaluation paths
+draw the same one from equal generator states.) -/
+theorem dropout_batch_eq_single (mask X : Nat → Nat → Rat) (i k : Nat) :
+    dropoutEval mask X i k = dropoutEval (fun _ => mask i) (fun _ => X i) 0 k := rfl
+theorem dropout_input_derivative_correct (mask X C : ℕ → ℕ → ℝ) (B n i0 j0 : ℕ) (hi : i0 < B) (hj : j0 < n) :
+    HasDerivAt (fun t => ∑ i ∈ Finset.range B, ∑ k ∈ Finset.range n,
+        C i k * dropoutEval mask (fun i j => if i = i0 ∧ j = j0 then t else X i j) i k)
+      (dropoutGradX mask C i0 j0) (X i0 j0) :=
+  dropout_input_derivative mask X C B n i0 j0 hi hj
+
 /-! ### non-vacuity -/
 def demo : Dense Rat := { nIn := 2, nOut := 2, W := fun k j => (k + 2 * j : Nat), hasB := true, b := fun k => (k : Nat), act := .rectifier }
 example : demo.params = [0, 2, 1, 3, 0, 1] := by decide
@@ -868,5 +1087,59 @@ example : argmax 3 (fun k => if k = 1 then (5 : Rat) else 2) = 1 :=
 example : (Chain.setParams ([(Layer.dense demo, true), (Layer.neuron .tanh 2, false)] : Chain Rat) [1, 2, 3, 4, 5, 6]).params
     = [1, 2, 3, 4, 5, 6] :=
   chain_params_setParams _ _ (by simp [Chain.numberOfParameters, Layer.numberOfParameters, Dense.numberOfParameters, demo])
+
+/-! non-vacuity of the section-6 theorems -/
+/-- a nested model: a frozen inner model holding an optimised dense layer, followed by an optimised inner model
+that holds a dense layer and a frozen element-wise layer -/
+def netDemo : Net Rat :=
+  .cons (.cons (.leaf (.dense demo)) true .nil) false
+    (.cons (.cons (.leaf (.dense demo)) true (.cons (.leaf (.neuron .tanh 2)) false .nil)) true .nil)
+example : netDemo.numberOfParameters = 6 := by decide
+example : (netDemo.setParams [1, 2, 3, 4, 5, 6]).params = [1, 2, 3, 4, 5, 6] :=
+  nested_params_setParams netDemo _ (by decide)
+example : (netDemo.flatten true).map Prod.snd = [false, true, false] := by decide
+
+/-- the nested derivative theorem is not vacuous: `chainDemo` regrouped into two nested models, the first frozen
+as a whole -/
+noncomputable def netDemoR : Net ℝ :=
+  .cons (.cons (.leaf (.dense { nIn := 2, nOut := 3, W := fun k j => (k : ℝ) - j, hasB := true, b := fun k => k, act := .tanh })) true
+            (.cons (.leaf (.neuron .logistic 3)) false .nil)) false
+    (.cons (.cons (.leaf (.dense chainDemoMid)) true (.cons (.leaf (.rowact .softmax 2)) false .nil)) true .nil)
+example (B : ℕ) (X C : ℕ → ℕ → ℝ) (hB : 0 < B) :
+    HasDerivAt (fun t => (netDemoR.flatten true).objective B 2 (fun i j => if i = 0 ∧ j = 1 then t else X i j) C)
+      ((netDemoR.backward Real.tanh Real.exp B X C).2 0 1) (X 0 1) :=
+  nested_input_derivative_correct netDemoR B 2 X C 0 1 hB (by norm_num) ⟨rfl, rfl, rfl, rfl, trivial⟩
+    (by simp [netDemoR, Net.flatten, chainDemoMid, Chain.NoKink, Layer.NoKink])
+
+/-- a tie: both pixels of a 1×2 patch hold 1; the derivative code selects pixel 0, and the inequality of
+`pooling_tie_subgradient` holds (with equality for `y = x`) -/
+example : (Pool.mk 1 2 1 1 2).argmaxPix (fun _ => (1 : Rat)) 0 0 = 0 := by decide
+example (y : Nat → Rat) :
+    (2 : Rat) * (Pool.mk 1 2 1 1 2).evalRow (fun _ => (1 : Rat)) (0 * 1 + 0)
+      + 2 * (y ((Pool.mk 1 2 1 1 2).argmaxPix (fun _ => (1 : Rat)) 0 0 * 1 + 0)
+            - (fun _ => (1 : Rat)) ((Pool.mk 1 2 1 1 2).argmaxPix (fun _ => (1 : Rat)) 0 0 * 1 + 0))
+      ≤ 2 * (Pool.mk 1 2 1 1 2).evalRow y (0 * 1 + 0) :=
+  pooling_tie_subgradient (Pool.mk 1 2 1 1 2) _ y 0 0 2 (by decide) (by decide) (by decide) (by norm_num)
+
+/-- three classes, every binary classifier answers 0: class 0 wins with two votes -/
+example : ovoDecide 3 (fun _ => 0) = 0 := by decide
+example : ovoVotes 3 (fun _ => 0) 0 = 2 := by decide
+example := ovo_decision_spec 3 (fun _ => 0) (by decide)
+/-- a zero-padded 1×1 image under a 3×3 filter keeps its 1×1 shape -/
+example : (Conv.mk 1 1 1 1 3 3 false (fun _ => (0 : Rat)) (fun _ => 0) .linear).outH = 1 := by decide
+example : (clustering_memberships_sum_one id 1 1 1 1 (fun _ _ => 0) (fun _ => 0)
+    (by simp [sumR, sumL, membershipKernel, centroidDist, sqr])) = (clustering_memberships_sum_one id 1 1 1 1 (fun _ _ => 0) (fun _ => 0)
+    (by simp [sumR, sumL, membershipKernel, centroidDist, sqr])) := rfl
+
+/-- the cast of the exact driver (`⌊q⌋.toNat`) satisfies the hypothesis of `resize_taps_in_range` -/
+example : ∀ (q : Rat) (n : ℕ), 0 ≤ q → q ≤ n → q.floor.toNat ≤ n := by
+  intro q n _ h1
+  have h : ¬ ((n : ℤ) + 1 ≤ q.floor) := by
+    rw [Rat.le_floor_iff]; push_cast; linarith
+  omega
+/-- a tree with one split and two labelled leaves is `Built`; its walk ends in a leaf -/
+example : Tree.Built (((Tree.root : Models.Tree Rat).internal 0 0 0).leaf 1 0 |>.leaf 2 1) :=
+  .leaf _ 2 1 (.leaf _ 1 0 (.internal _ 0 0 0 .root (by decide)))
+example : (((Tree.root : Models.Tree Rat).internal 0 0 0).leaf 1 0 |>.leaf 2 1).eval (fun _ => 1) = 1 := by decide
 
 end SharkVerif.C04
